@@ -522,7 +522,7 @@ def check_hashing_header():
 
 
 def run():
-    model_src = open(os.path.join(VERIF, "lean", "LLBuild", "Model", "Signature.lean")).read()
+    model_src = open(os.path.join(os.environ.get("VERIF_LEAN", os.path.join(VERIF, "lean")), "LLBuild", "Model", "Signature.lean")).read()
     fields, methods, clss = lean_enum(model_src, "Field"), lean_enum(model_src, "Method"), lean_enum(model_src, "Cls")
     hdr, sources = check_hashing_header()
     # the seed override must never be set by the libraries
